@@ -2,6 +2,7 @@
    generic stores partition the generic selectors; the lookup returns exactly the asked-for,
    unexcepted ones. *)
 From Adb Require Import Base BaseProofs C17_Model.
+From Adb Require Generated.
 From Coq Require Import ZifyBool ZifyNat ZifyN Permutation.
 
 Arguments spell : simpl never.
@@ -1003,3 +1004,15 @@ Example ex_misc : misc (build ex_uw ex_G) = [bs "div[ad]"; bs ".\110000 z"; bs "
 Proof. vm_compute. reflexivity. Qed.
 Example ex_reach : In (bs ".\61 d.x") ex_G /\ key_from_selector ex_uw (bs ".\61 d.x") = Some (bs ".ad").
 Proof. split; [cbn; auto 10|vm_compute; reflexivity]. Qed.
+
+(* ------------------------------------------------------------------ tie to the source text:
+   the regular expressions the model transcribes are the ones in /repo now (Generated.v is
+   rewritten from src/cosmetic_filter_cache.rs on every run) *)
+Lemma regexes_as_modelled :
+  Generated.c17_re_plain_selector = "^[#.][\w\\-]+" /\
+  Generated.c17_re_plain_selector_escaped = "^[#.](?:\\[0-9A-Fa-f]+ |\\.|\w|-)+" /\
+  Generated.c17_re_escape_sequence = "\\([0-9A-Fa-f]+ |.)" /\
+  Generated.c17_escape_radix = 16%N /\
+  Generated.c17_regex_use_order = ["RE_PLAIN_SELECTOR"; "RE_PLAIN_SELECTOR_ESCAPED"; "RE_ESCAPE_SEQUENCE"] /\
+  Generated.c17_store_prefixes = ["."; "#"].
+Proof. repeat split. Qed.
